@@ -177,19 +177,20 @@ FULL = B(False, True)
                  "PENDING, the type is exactly the awaited one and every requirement holds; otherwise the waiter is "
                  "untouched and nothing is replayed",
             bounds={"num_workers": "1..2 quick / 1..3 thorough", "queue": "0..1 quick / 0..2 thorough", "waiter": "absent/pending/resolved/timed-out",
-                    "event": "awaited type k in {1,2} / subclass / other type / type accepted by the step"})
+                    "event": "awaited type with k in {1, 2, None} / subclass / other type / type accepted by the step"})
 def ob_match(nw: int, b0: bool, b1: bool, b2: bool, q: int, wk: int, evk: int, req: bool, kv: int, targeted: bool) -> bool:
     """
     pre: _valid_a(nw, b0, b1, b2, q) and q <= QMAX and nw <= NWMAX
-    pre: 0 <= wk <= 3 and 0 <= evk <= 3 and 1 <= kv <= 2
+    pre: 0 <= wk <= 3 and 0 <= evk <= 3 and 0 <= kv <= 2
     pre: FULL or not targeted
     pre: evk <= 1 or kv == 1
     post: _
     """
-    nw, q, wk, evk, kv = conc(nw, 1, 3), conc(q, 0, 2), conc(wk, 0, 3), conc(evk, 0, 3), conc(kv, 1, 2)
+    nw, q, wk, evk, kv = conc(nw, 1, 3), conc(q, 0, 2), conc(wk, 0, 3), conc(evk, 0, 3), conc(kv, 0, 2)
     b0, b1, b2, req, targeted = concb(b0), concb(b1), concb(b2), concb(req), concb(targeted)
     st = _world_a(nw, b0, b1, b2, q, wk, req)
-    ev = Resp(k=kv) if evk == 0 else (SubResp(k=kv) if evk == 1 else (EvB() if evk == 2 else EvA()))
+    kval = kv if kv else None     # kv == 0: the response does not carry the required field (None)
+    ev = Resp(k=kval) if evk == 0 else (SubResp(k=kval) if evk == 1 else (EvB() if evk == 2 else EvA()))
     tick = mk_add_event(ev, "a" if targeted else None)
     st2, cmds = _reduce_tick(tick, st, 1, "r")
     if not (rep_R1(st2) and rep_R2(st2)):
